@@ -93,6 +93,11 @@ impl StateMachine<'_> {
 
         if self.source == Source::DiffUnified {
             self.state = State::DiffHeader(DiffType::Unified);
+            // Plain `diff -u` output has no "diff" line in front of a file section: the "---"
+            // line is what starts one, also when it names the same files as the section before.
+            if self.line.starts_with("--- ") {
+                self.handled_diff_header_header_line_file_pair = None;
+            }
             self.painter
                 .set_syntax(get_filename_from_marker_line(&self.line));
         } else {
